@@ -276,11 +276,21 @@ where
         // the record of a group the user is already an active member of. In that case only
         // the welcome itself is stored; the record is brought in line with the joined state
         // when (and if) the invitation is accepted.
-        let already_active = self
-            .get_group(&mls_group_id)?
+        let existing_group = self.get_group(&mls_group_id)?;
+        let already_active = existing_group
+            .as_ref()
             .is_some_and(|existing| existing.state == group_types::GroupState::Active);
 
         if !already_active {
+            // A user who is invited again after having been removed (or after having left) still
+            // holds the group's stored messages: the last-message pointer goes with them.
+            let mut group = group;
+            if let Some(existing) = existing_group {
+                group.last_message_id = existing.last_message_id;
+                group.last_message_at = existing.last_message_at;
+                group.last_message_processed_at = existing.last_message_processed_at;
+            }
+
             // Save the pending group
             self.storage()
                 .save_group(group)
